@@ -1272,6 +1272,25 @@ theorem c20_constructor_agrees_with_evaluated_source (allow : Bool) :
     Gen.constructTable.lookup allow = some (some (constructScenario allow)) := by
   cases allow <;> decide
 
+/-- **`get_statistics` — evaluated.**  After a fixed history that logs approved and refused mutations, rollbacks, a
+    re-add, a silencing and a replication with a requested mutation — under each `allow_mutations` setting, without a
+    callback and with one that approves / refuses everything — the real `get_statistics()` of parent and child reports
+    exactly the numbers of the model's `stats` (total_genes, generation, mutations_count, approved_mutations, SILENCED
+    states), its `hash` is `get_hash()` and the child's `parent_hash` the parent's hash (checked by the evaluator). -/
+theorem c20_statistics_agree_with_evaluated_source (allow : Bool) (ans : Option Ans) (h : ans ≠ some .raise) :
+    Gen.statsTable.lookup (allow, ans) = some (some (statsScenario allow ans)) := by
+  cases allow <;> rcases ans with _ | a
+  · decide
+  · cases a
+    · decide
+    · decide
+    · exact absurd rfl h
+  · decide
+  · cases a
+    · decide
+    · decide
+    · exact absurd rfl h
+
 /-! ## Non-vacuity: concrete lineages and histories meeting the hypotheses -/
 
 section Examples
